@@ -148,17 +148,31 @@ def gen(repo):
             pass
         else:
             raise TranslateError("BlockingQueue::%s has more than %d definition(s)" % (name, count))
-    # member functions the unit does not know but that touch the shared state
+    # EVERY member function with a body must be known: a new (public) method may touch the state from any thread and is not modelled
     known = {n for n, _ in METHODS} | {"BlockingQueue"}
-    for m in re.finditer(r"\b(~?\w+)\s*\([^()]*\)\s*(?:const\s*)?(?:noexcept\s*)?\{", src):
+    for m in re.finditer(r"(?<![\w~:.>])(~?\w+)\s*\([^()]*\)\s*(?:const\s*)?(?:noexcept\s*)?(?::[^{};]*)?\{", src):
         fname = m.group(1)
-        if fname in known or fname in ("if", "for", "while", "switch", "catch"):
+        if fname in known or fname in ("if", "for", "while", "switch", "catch", "return", "sizeof"):
             continue
-        end = cxxscan.match_brace(src, m.end() - 1)
-        if any(re.search(r"(?<![\w])%s\b" % v, src[m.end():end]) for v in SHARED):
-            raise TranslateError("BlockingQueue::%s touches the queue state but is not a known method" % fname)
+        k = m.start() - 1
+        while k >= 0 and src[k] in " \t\r\n":
+            k -= 1
+        if k >= 0 and src[k] in "])":      # a lambda `[this]() {` or a call used as a condition
+            continue
+        raise TranslateError("BlockingQueue::%s is not a known member function (every method must be part of the model)" % fname)
+    # `_maxSize` is read without the mutex (capacity(), and inside the predicates): sound only because it never changes
+    if not re.search(r"\bconst\s+std::size_t\s+_maxSize\s*;", src):
+        raise TranslateError("BlockingQueue::_maxSize is no longer declared `const std::size_t _maxSize;` (it is read without synchronisation)")
+    for m in re.finditer(r"\b_maxSize\s*(=(?!=)|\+\+|--|\+=|-=|\*=|/=)", src):
+        raise TranslateError("BlockingQueue::_maxSize is written: %r" % src[max(0, m.start() - 30):m.end() + 20].strip())
+    decls = re.findall(r"^\s*(?:mutable\s+)?(?:const\s+)?[\w:<>\s]+?\b(_\w+)\s*;", src, re.M)
+    expected_members = ["_mutex", "_condNotEmpty", "_condNotFull", "_queue", "_maxSize", "_closed"]
+    if sorted(set(decls)) != sorted(expected_members):
+        raise TranslateError("BlockingQueue data members changed: %s (expected %s)" % (sorted(set(decls)), sorted(expected_members)))
     t = HEADER % FILE
     t += "namespace Iora.Gen.BqSkel\n"
+    t += "/-- data members (checked: `_maxSize` is `const std::size_t` and never assigned) -/\n"
+    t += "def members : List String := [%s]\n" % ", ".join('"%s"' % x for x in expected_members)
     t += "/-- per method (name#overload, textual order): (event, object, mutexes held) -/\n"
     t += "def skeleton : List (String × List (String × String × String)) := [\n"
     t += ",\n".join('  ("%s", [%s])' % (w, ", ".join('("%s", "%s", "%s")' % e for e in evs)) for w, evs in rows)
